@@ -243,6 +243,11 @@ static long long execOp(World &w, const J &op, J &ev) {
               size_t first = 0; while (first < b1.a.size() && first < b2.a.size() && b1.a[first].i == b2.a[first].i) ++first;
               ev.set("repeat", J((b1.a.size() == b2.a.size() && first == b1.a.size()) ? -1 : static_cast<long long>(first))); unlink(p2.c_str()); }
             std::unique_ptr<c3d> fresh(new c3d(p));
+            // C04: saving the object that was just loaded reproduces the file it was loaded from (generation n+1 = generation n);
+            // only meaningful when the saved object itself came from a file - the caller knows, the harness just measures
+            { std::string p3 = p + ".next"; unlink(p3.c_str()); fresh->write(p3); bool ok3; J b3 = fileBytes(p3, ok3);
+              size_t first = 0; while (first < b1.a.size() && first < b3.a.size() && b1.a[first].i == b3.a[first].i) ++first;
+              ev.set("resave", J((b1.a.size() == b3.a.size() && first == b1.a.size()) ? -1 : static_cast<long long>(first))); unlink(p3.c_str()); }
             w.objs[o] = std::move(fresh);
         }
         else if (name == "SetParam") {
@@ -265,6 +270,14 @@ static long long execOp(World &w, const J &op, J &ev) {
             size_t idx = idxOf(op.at("idx"));
             if (op.has("c")) w.obj(o).frame(w.callers[op.at("c").i], idx);
             else { Frame fr; fillFrame(fr, op.at("frame")); w.obj(o).frame(fr, idx); }
+        }
+        else if (name == "AddFrameAlias") {     // the argument is a reference to one of the object's own frames
+            c3d &c = w.obj(o);
+            c.frame(c.data().frame(idxOf(op.at("src"))), idxOf(op.at("idx")));
+        }
+        else if (name == "SetParamAlias") {     // the argument is a reference to one of the object's own parameters
+            c3d &c = w.obj(o);
+            c.parameter(verif::uncodes(op.at("g")), c.parameters().group(idxOf(op.at("sg"))).parameter(idxOf(op.at("sp"))));
         }
         else if (name == "DeclPoint") w.obj(o).point(verif::uncodes(op.at("n")));
         else if (name == "DeclAnalog") w.obj(o).analog(verif::uncodes(op.at("n")));
@@ -436,10 +449,19 @@ static bool replayCase(const J &c, long long caseNo, long long &steps) {
         for (size_t i = 0; i < d.size(); ++i) { d[i].set("k", "res"); diffs.push_back(d[i]); }
     } else if (c.has("res") && out == "ok")
         diffs.push_back(J::obj().set("k", "res").set("path", "res").set("exp", c.at("res")).set("act", "<none>"));
+    if (getenv("EZ_EMIT_DIGEST") && ev.has("bytes")) {      // C14: what was written, for comparison between differently perturbed runs
+        std::string raw; const J &ab = ev.at("bytes"); raw.reserve(ab.a.size());
+        for (size_t i = 0; i < ab.a.size(); ++i) raw += static_cast<char>(ab.a[i].i);
+        std::string keysrc; path.dump(keysrc); op.dump(keysrc);
+        J dg = J::obj().set("digest", J(static_cast<long long>(fnv(raw)))).set("key", J(static_cast<long long>(fnv(keysrc)))).set("len", J(raw.size())).set("n", J(path.a.size() + 1));
+        std::string sline; dg.dump(sline); sline += '\n'; emitLine(sline);
+    }
     if (ev.has("purity") && ev.at("purity").a.size())
         diffs.push_back(J::obj().set("k", "purity").set("path", ev.at("purity").a[0].at("path")).set("exp", "object unchanged by save").set("act", ev.at("purity").a[0]));
     if (ev.has("repeat") && ev.at("repeat").i >= 0)
         diffs.push_back(J::obj().set("k", "repeat").set("path", "bytes").set("exp", "second save byte-identical").set("act", ev.at("repeat")));
+    if (ev.has("resave") && ev.at("resave").i >= 0)
+        diffs.push_back(J::obj().set("k", "resave").set("path", "bytes").set("exp", "saving the loaded object reproduces the file").set("act", ev.at("resave")));
     if (c.has("bytes") && op.at("op").s == "Reload" && c.gets("out", "ok") != "range_error") {
         const J &eb = c.at("bytes");
         if (!ev.has("bytes")) diffs.push_back(J::obj().set("k", "bytes").set("path", "bytes").set("exp", J(eb.a.size())).set("act", "<no file>"));
@@ -450,7 +472,7 @@ static bool replayCase(const J &c, long long caseNo, long long &steps) {
             if (first < n || eb.a.size() != ab.a.size()) {
                 J d = J::obj().set("k", "bytes").set("path", "bytes@" + std::to_string(first))
                     .set("exp", first < n ? eb.a[first] : J(eb.a.size())).set("act", first < n ? ab.a[first] : J(ab.a.size()))
-                    .set("explen", J(eb.a.size())).set("actlen", J(ab.a.size())).set("actbytes", ab);
+                    .set("explen", J(eb.a.size())).set("actlen", J(ab.a.size())).set("actbytes", ab).set("pre", pre);
                 diffs.push_back(d);
             }
         }
